@@ -42,7 +42,7 @@ SEG_LENGTHS = (1e-12, 1e-10, 5e-9, 9.9e-9, 1.01e-8, 2e-8, 5e-8, 1e-3, 0.05, 0.07
 def floors(tier):
     f = {"evals": {"write": 5000, "write.raising": 200}, "classes": {}}
     for c in ("sliver-at-start", "sliver-in-middle", "sliver-at-end", "sliver-chain>=2", "labelled-sliver", "threshold-None", "blanks-off-verbatim",
-              "override-raises", "override-above", "override-below", "override-equal", "dest-untouched"):
+              "override-raises", "override-above", "override-below", "override-equal", "dest-untouched", "override-ulps-inside-data"):
         f["classes"]["C04:" + c] = 30
     for fmt in TC.FORMATS:
         f["classes"]["C04:format:" + fmt] = 300
@@ -190,6 +190,9 @@ def _str_post(ctx):
     mech = {"format": fmt, "blanks": blanks, "thr": thr, "exc": type(ctx.exc).__name__ if ctx.exc else None}
     REC.outcome("write", ctx.exc)
     if must_raise(data, blanks, minT, maxT):
+        lo_, hi_ = (data["min"] if minT is None else minT), (data["max"] if maxT is None else maxT)
+        if any(t["t"] == "I" and t["entries"] and (0 < lo_ - t["entries"][0][0] <= 1e-13 * max(1.0, abs(lo_)) or 0 < t["entries"][-1][1] - hi_ <= 1e-13 * max(1.0, abs(hi_))) for t in data["tiers"]):
+            REC.cls("C04:override-ulps-inside-data")
         if ctx.exc is None:
             REC.violation(PROP, "write", "getTextgridAsStr", case, "an interval lies outside the requested span [%r, %r] with blank filling on: the writer must raise, it returned a document" % (
                 data["min"] if minT is None else minT, data["max"] if maxT is None else maxT), sig, mech)
@@ -373,6 +376,14 @@ def workload(tier, rng, shard, nshards, work):
                     minT = (first + last) / 2
                 elif r < 0.6 and tmin > 0:
                     minT = 0.0
+                elif r < 0.7:
+                    import math
+
+                    maxT = math.nextafter(last, 0) if rng.random() < 0.5 else last * (1 - 4e-15)  # a few ulps inside the data: must raise
+                elif r < 0.78 and first > 0:
+                    import math
+
+                    minT = math.nextafter(first, math.inf) if rng.random() < 0.5 else first * (1 + 4e-15)
                 drive(tg, data, rng.choice(TC.FORMATS), blanks, minT, maxT, thr, work, k)
 
 
